@@ -179,9 +179,87 @@ def promoted_enum(prog, f, defs, o):
     return None
 
 
+def rule_ecshift(ctx):
+    """sibling agreement: the effective shift of an extra channel is log2(ec_upsampling) + dim_shift at every site"""
+    from ..engine import LIB_CRATES
+    from ..facts import place_fields, op_place, op_local
+    from ..intervals import value_class
+    rid = "R-ECSHIFT"
+    ctx.rule(rid, "every function (with its closures) that reads FrameHeader.ec_upsampling combines it with ExtraChannelInfo.dim_shift in an "
+                  "addition: the frame parser's validation, the modular channel layout and the region padding must agree on an extra "
+                  "channel's effective upsampling shift, otherwise a requested region is padded for a smaller factor than the channel is "
+                  "upsampled by")
+
+    def reads(f, fld, adt_tail):
+        for blk in f.blocks:
+            if blk[2]:
+                continue
+            for st in blk[0]:
+                if st[0] != "=":
+                    continue
+                rv = st[2]
+                ps = []
+                if rv[0] in ("use", "cast"):
+                    p_ = op_place(rv[1] if rv[0] == "use" else rv[2])
+                    if p_ is not None:
+                        ps.append(p_)
+                elif rv[0] == "ref":
+                    ps.append(rv[2])
+                for p_ in ps:
+                    for n, a in place_fields(p_):
+                        if n == fld and a and a.endswith(adt_tail):
+                            return True
+        return False
+
+    def add_with_dim_shift(f):
+        loads = set()
+        for blk in f.blocks:
+            if blk[2]:
+                continue
+            for st in blk[0]:
+                if st[0] == "=" and len(st[1]) == 1 and st[2][0] in ("use", "cast"):
+                    p_ = op_place(st[2][1] if st[2][0] == "use" else st[2][2])
+                    if p_ is not None and any(n == "dim_shift" for n, a in place_fields(p_)):
+                        loads |= value_class(f, st[1][0])
+        for blk in f.blocks:
+            if blk[2]:
+                continue
+            for st in blk[0]:
+                if st[0] == "=" and st[2][0] == "bin" and st[2][1] in ("Add", "AddWithOverflow"):
+                    for o in (st[2][2], st[2][3]):
+                        l = op_local(o)
+                        p_ = op_place(o)
+                        if (l is not None and l in loads) or (p_ is not None and any(n == "dim_shift" for n, a in place_fields(p_))):
+                            return True
+        return False
+
+    fams = {}
+    for f in ctx.prog.all_fns(LIB_CRATES):
+        root = f.path.split("::{closure")[0]
+        fams.setdefault(root, []).append(f)
+    n = 0
+    for root, fs in sorted(fams.items()):
+        if "core::fmt::Debug" in root or "core::clone::Clone" in root:
+            continue
+        if not any(reads(f, "ec_upsampling", "FrameHeader") for f in fs):
+            continue
+        n += 1
+        for f in fs:
+            ctx.seen(f)
+        if any(add_with_dim_shift(f) for f in fs):
+            ctx.ok(rid, "site:" + root, "ec_upsampling is combined with dim_shift", nontrivial=True, fn=fs[0])
+        else:
+            ctx.bad(rid, "site:%s|dim_shift-dropped" % root, "%s derives an extra channel's upsampling from FrameHeader.ec_upsampling without adding "
+                    "ExtraChannelInfo.dim_shift, unlike the other sites: it works with a smaller factor than the channel really has"
+                    % root.split("::")[-1], fn=fs[0])
+    ctx.counts[rid + ".sites"] = n
+    ctx.floor(rid + ".sites", 3)
+
+
 def main(pid, tier, repo=None):
     ctx = Ctx(pid, tier, configs=("workspace",), repo=repo)
     rule_region_reset(ctx)
+    rule_ecshift(ctx)
     ctx.not_decided("the padding amounts per filter/upsampling/LF level and the group selection (numeric)")
     return ctx.finish(
         "Cache invalidation only: a necessary condition for 'requesting regions in any sequence never changes what a later request "
